@@ -52,6 +52,8 @@ def _init_worker(hooks):
     except Exception:
         pass
     sys.setrecursionlimit(1000)
+    import faulthandler
+    faulthandler.enable()
     import gc
     gc.freeze()     # inherited objects are never traversed (no copy-on-write storms, no long pauses)
     import sourcer  # noqa: F401  (import now so that failures show up early)
@@ -74,7 +76,7 @@ class timeout:
 # projection of real values into the spec's value model
 # ---------------------------------------------------------------------------
 def project(v, spans=False, depth=0):
-    if depth > 200:
+    if depth > 700:
         return ['deep']
     if v is None:
         return ['none']
